@@ -22,6 +22,7 @@ type Op struct {
 	ClearS  int64  `json:"clear_s,omitempty"`  // clear: duration = skew + ClearS seconds
 	SvcNT   int32  `json:"svc_nt,omitempty"`   // name-type of the service name as presented (0 = 1; not significant, RFC 4120 6.2)
 	Alt     bool   `json:"alt,omitempty"`      // presented through the process's second settings object (other clock skew)
+	Alt2    bool   `json:"alt2,omitempty"`     // presented through the process's third settings object (a clock skew longer than both others)
 	ZoneMin int    `json:"zone_min,omitempty"` // the client time is encoded with this zone offset (minutes) instead of Z: same instant
 	Kvno    int    `json:"kvno,omitempty"`     // path=verify: key version of the service key the ticket is sealed under (0 = 2; 1 = the older key, as a ticket issued before the key change)
 	Relabel string `json:"relabel,omitempty"`  // path=verify: the clear-text sname of the ticket is rewritten to HTTP/<this>; applied when the key found is the same (settings overriding the keytab principal, or the alias a<n> of the account of s<n>)
@@ -41,6 +42,7 @@ type Tape struct {
 	Etype   int     `json:"etype,omitempty"`
 	Shape   string  `json:"shape"`
 	AltMs   int64   `json:"alt_skew_ms,omitempty"`          // clock skew of a second settings object in the same process (0 = none)
+	Alt2Ms  int64   `json:"alt2_skew_ms,omitempty"`         // clock skew of a third settings object, longer than both others (0 = none)
 	AltKt   string  `json:"alt_keytab_principal,omitempty"` // path=verify: the second settings object overrides the keytab principal with HTTP/<this service>
 	Tasks   []TaskT `json:"tasks"`
 }
@@ -71,7 +73,7 @@ func Meta() core.Meta {
 		Engine: "c02", Property: "C02", Level: "exploration",
 		Rule:        "case = one seeded run: 1-3 presenter tasks (1-8 presentations each over clients{a,b,a/admin,a/admin as one component,a@other realm} x client times{t0,+1us,+1s,late,early; encoded with Z or a zone offset} x services{s1,s2} x service name-type{1,2,3} x rewritten clear-text ticket sname x 1-2 settings objects with different clock skews sharing the process's cache, the second one known to the cache from its first verification on) plus the library's clean-up goroutine, interleaved by the seeded fake-time scheduler at every lock boundary of service/cache.go; distinct = distinct (shape, path, skew, interleaving hash of the ordered (task, lock site) sequence, outcome vector); non-trivial = at least two presentations of one identity inside the skew window, or a context switch inside a cache operation",
 		SeededQuick: 20000, SeededThorough: 600000,
-		WorkloadProbes: []string{"same-identity-overlap", "late-window", "cleaner-between", "cross-service", "sequential-replay", "presentation-overlaps-cleanup", "replay-under-other-name-type", "replay-through-other-settings", "replay-under-other-zone-encoding", "replay-with-rewritten-sname", "replay-with-ticket-under-other-service-key", "longer-skew-first-used-after-shorter-skew-elapsed", "window-closes-during-presentation"},
+		WorkloadProbes: []string{"same-identity-overlap", "late-window", "cleaner-between", "cross-service", "sequential-replay", "presentation-overlaps-cleanup", "replay-under-other-name-type", "replay-through-other-settings", "replay-under-other-zone-encoding", "replay-with-rewritten-sname", "replay-with-ticket-under-other-service-key", "longer-skew-first-used-after-shorter-skew-elapsed", "window-closes-during-presentation", "replay-through-third-settings-with-longest-skew"},
 		Components: map[string]string{
 			"service.Cache (IsReplay, AddEntry, getClientEntry, ClearOldEntries) + GetReplayCache clean-up goroutine": "real",
 			"service.VerifyAPREQ, messages.APReq.Verify, keytab, crypto (path=verify)":                                "real",
@@ -269,6 +271,44 @@ func Gen(caseID, tier string) (json.RawMessage, error) {
 			tp.AltKt = r.Pick(services...)
 		}
 	}
+	if tp.AltMs != 0 && r.Chance(1, 2) {
+		// a third settings object whose skew is longer than both others
+		m := tp.AltMs
+		if tp.SkewS*1000 > m {
+			m = tp.SkewS * 1000
+		}
+		tp.Alt2Ms = m * int64(r.PickInt(2, 3, 20))
+	}
+	if r.Chance(1, 25) && tp.Shape != "window-edge" {
+		// skew ladder: an authenticator accepted through the settings with the shortest skew ages out
+		// of them (the cache may forget it), then settings with successively longer skews verify for
+		// the first time in quick succession and the last of them is handed the old authenticator
+		tp.Shape = "skew-ladder"
+		tp.AltKt = ""
+		tp.AltMs = tp.SkewS * int64(r.PickInt(3000, 5000))
+		tp.Alt2Ms = tp.AltMs * int64(r.PickInt(2, 10, 20))
+		cl, sv := r.Pick(clients...), r.Pick(services...)
+		skewNs := tp.SkewS * 1_000_000_000
+		ctUs := -(skewNs / 1000) * int64(r.PickInt(0, 30, 60)) / 100 // the client's clock may be behind: the entry ages out sooner
+		wait := skewNs + skewNs*int64(r.Range(5, 145))/100          // 1.05 - 2.45 skews after the first presentation (the library's clean-up runs once per skew)
+		gap := skewNs * int64(r.Range(0, 25)) / 100                  // well below the difference of the two shorter skews
+		if r.Chance(1, 3) {
+			gap = int64(r.Range(0, 2_000_000))
+		}
+		t1 := TaskT{ID: 1, Sched: simrt.Sched{Seed: r.U64(), Mode: r.Pick("min", "fast", "mixed")}}
+		t1.Ops = append(t1.Ops, Op{Op: "present", Client: cl, CtUs: ctUs, Svc: sv, ThinkNs: int64(r.Range(0, 1000))})
+		other := clients[0]
+		if other == cl {
+			other = clients[1]
+		}
+		t1.Ops = append(t1.Ops, Op{Op: "present", Client: other, CtUs: wait / 1000, Svc: sv, ThinkNs: wait, Alt: true})
+		t1.Ops = append(t1.Ops, Op{Op: "present", Client: cl, CtUs: ctUs, Svc: sv, ThinkNs: gap, Alt2: true})
+		if r.Chance(1, 2) {
+			t1.Ops = append(t1.Ops, Op{Op: "present", Client: cl, CtUs: ctUs, Svc: sv, ThinkNs: int64(r.Range(0, 1_000_000)), Alt: r.Chance(1, 2)})
+		}
+		tp.Tasks = []TaskT{t1}
+		return core.MustJSON(tp), nil
+	}
 	for ti := range tp.Tasks {
 		for oi := range tp.Tasks[ti].Ops {
 			o := &tp.Tasks[ti].Ops[oi]
@@ -278,7 +318,9 @@ func Gen(caseID, tier string) (json.RawMessage, error) {
 			if r.Chance(1, 4) {
 				o.SvcNT = int32(r.PickInt(2, 3))
 			}
-			if tp.AltMs != 0 && r.Chance(1, 2) {
+			if tp.Alt2Ms != 0 && r.Chance(1, 4) {
+				o.Alt2 = true
+			} else if tp.AltMs != 0 && r.Chance(1, 2) {
 				o.Alt = true
 				if tp.AltKt == o.Svc && r.Chance(1, 2) {
 					o.Relabel = r.Pick("x1", "x2", "s1", "s2")
